@@ -653,3 +653,30 @@ func (m *Model) setFor(b, k string) {
 		m.S[b][k] = map[string]bool{}
 	}
 }
+
+// ApplyCommitTime is the alternative model of the known finding C13/KF: a logged operation that is no
+// longer valid when the transaction is applied is silently skipped (instead of having been refused,
+// or applied with Redis semantics, when it was called).
+func (m *Model) ApplyCommitTime(o Op, r Res) {
+	if r.Err || r.Panic != "" {
+		return
+	}
+	k := string(o.Key)
+	switch o.K {
+	case "LTrim":
+		if l, ok := m.L[o.B][k]; ok {
+			if _, _, ok := normRange(len(l), o.I, o.J); !ok {
+				return
+			}
+		}
+	case "LRem":
+		if o.I > len(m.L[o.B][k]) {
+			return
+		}
+	case "LSet":
+		if o.I < 0 {
+			return
+		}
+	}
+	m.Apply(o, r)
+}
